@@ -60,7 +60,8 @@ Theorem C08_unrelated_pairs_raise :
   raises_both_orders all_arith [Quaternion; UnitQuaternion] [Twist2; Twist3; Plucker; DualQuaternion] = true /\
   raises_both_orders all_arith [Twist2] [Twist3; Plucker] = true /\ raises_both_orders all_arith [Twist3] [Plucker] = true /\
   raises_both_orders [Mul; Div; Add; Sub; Pow] [SpatialVelocity; SpatialAcceleration] [SpatialForce; SpatialMomentum] = true /\
-  raises_both_orders all_arith [SpatialAcceleration] [SpatialVelocity; SpatialForce; SpatialMomentum] = true.
+  raises_both_orders all_arith [SpatialAcceleration] [SpatialForce; SpatialMomentum] = true /\
+  raises_both_orders [Mul; Div; Add; Sub; Pow] [SpatialAcceleration] [SpatialVelocity] = true.
 Proof. vm_compute. repeat split; reflexivity. Qed.
 Print Assumptions C08_unrelated_pairs_raise.
 
@@ -102,4 +103,16 @@ Theorem C08_spatial_inertia_add :
   binop H 1 Add (Obj SpatialInertia) (Obj SpatialInertia) = Value (RObj SpatialInertia) Computed.
 Proof. vm_compute. reflexivity. Qed.
 Print Assumptions C08_spatial_inertia_add.
+
+(* (raised TypeError before fix 66a8f3b)  the spatial cross product  velocity @ motion vector  is a SpatialAcceleration,
+   velocity @ force vector a SpatialForce (single-valued operands); acceleration @ anything has no such operator *)
+Theorem C08_spatial_cross_product :
+  forallb (fun X => outcome_beq (binop H 1 MatMul (Obj SpatialVelocity) (Obj X)) (Value (RObj SpatialAcceleration) Computed))
+          [SpatialVelocity; SpatialAcceleration] = true /\
+  forallb (fun X => outcome_beq (binop H 1 MatMul (Obj SpatialVelocity) (Obj X)) (Value (RObj SpatialForce) Computed))
+          [SpatialForce; SpatialMomentum] = true /\
+  forallb (fun X => both_lengths (fun n => outcome_beq (binop H n MatMul (Obj SpatialAcceleration) (Obj X)) Raise))
+          [SpatialVelocity; SpatialAcceleration; SpatialForce; SpatialMomentum] = true.
+Proof. vm_compute. repeat split; reflexivity. Qed.
+Print Assumptions C08_spatial_cross_product.
 
